@@ -14,6 +14,9 @@ func corpus(c *corr.Ctx) {
 	runSeq(c, &SeqCase{Kind: "seq", Size: 2, Ops: []SeqOp{{K: "push", ID: 1}, {K: "close"}, {K: "push", ID: 2}, {K: "push", ID: 3}, {K: "push", ID: 4}, {K: "pull"}, {K: "pull"}, {K: "pull"}}}, "corpus-pull-after-close")
 	runSeq(c, &SeqCase{Kind: "seq", Size: 1, Ops: []SeqOp{{K: "close"}, {K: "push", ID: 1}, {K: "pull"}}}, "corpus-pull-after-close-1")
 	// the same through the Processor: pushes racing with Close were executed out of order
+	if sawPanic.Load() {
+		return
+	}
 	runAsyncDet(c, &AsyncCase{Kind: "async", Size: 2, Ops: []AOp{{K: "start"}, {K: "push", ID: 1}, {K: "push", ID: 2}, {K: "closebegin"},
 		{K: "push", ID: 3}, {K: "push", ID: 4}, {K: "closeend"}}}, "corpus-async-close-window")
 	runAsyncDet(c, &AsyncCase{Kind: "async", Size: 2, Ops: []AOp{{K: "push", ID: 1}, {K: "closebegin"}, {K: "closeend"}, {K: "push", ID: 2}, {K: "push", ID: 3},
